@@ -210,8 +210,20 @@ def firstAlt (lib : DateLib) (zOk : Bool) (s : Bytes) : List (Nat × Bytes) → 
 def chronoParse (lib : DateLib) (s : Bytes) : Option Fields := firstAlt lib true s CHRONO_PARSE
 /-- `TryFrom<DateTime> for jiff::Zoned` -/
 def jiffParse (lib : DateLib) (s : Bytes) : Option Fields := firstAlt lib false s JIFF_PARSE
-/-- `TryFrom<DateTime> for time::OffsetDateTime` -/
-def timeParse (lib : DateLib) (s : Bytes) : Option Fields := lib.timeParse TIME_PARSE_FMT s
+/-- the same over the `time` backend's own format syntax -/
+def firstAltTime (lib : DateLib) (s : Bytes) : List (Nat × Bytes) → Option Fields
+  | [] => none
+  | (kind, fmt) :: rest =>
+    match lib.timeParse fmt s with
+    | some f => some (applyKind kind f)
+    | none => firstAltTime lib s rest
+
+/-- `TryFrom<DateTime> for time::OffsetDateTime`: the alternatives in source order -/
+def timeParse (lib : DateLib) (s : Bytes) : Option Fields := firstAltTime lib s TIME_PARSE
+
+/-- `From<time::Time> for Object`; `f` are the fields of `OffsetDateTime::now_utc().replace_time(time)`:
+the date is the environment's, hour/minute/second are the argument's -/
+def timeTimeString (lib : DateLib) (f : Fields) : Option Bytes := lib.timeFormat TIME_TIME_FMT f
 
 /-! ### instants (protocol replies only — civil/epoch arithmetic is the libraries', nothing is proved about it) -/
 
